@@ -184,6 +184,35 @@ def r9_line_base(ctx):
                            "is one line below the token / past the end of the document" % where)
     r.counts["position_constructions"] = n
     r.floor("Position constructions", n, 3)
+    # the 0-based result of the line converter (role: usize -> u32, subtracts one) is not moved off its line again
+    conv = set()
+    for f in crate.real_fns():
+        if f.kind in ("fn", "method") and f.argc == 1 and f.local_ty(1) == "usize" and f.ret == "u32":
+            subs = [1 for _b, c in f.calls() if re.search(r"::saturating_sub$|::checked_sub$|::wrapping_sub$", c.get("res") or "")] + \
+                   [1 for _b, _s, _p, rv, _sp in f.assigns() if rv[0] == "bin" and rv[1].startswith("Sub")]
+            if subs:
+                conv.add(f.id)
+    r.counts["line_converters"] = len(conv)
+    m = 0
+    for f in crate.real_fns():
+        res_locals = {place_local(c["dest"]) for _b, c in f.calls() if c.get("res") in conv}
+        if not res_locals:
+            continue
+        m += len(res_locals)
+        changed = True
+        while changed:
+            changed = False
+            for bb, si, pl, rv, sp in f.assigns():
+                if isinstance(pl, int) and pl not in res_locals and rv[0] == "use" and op_local(rv[1]) in res_locals and not place_projs(op_place(rv[1])):
+                    res_locals.add(pl)
+                    changed = True
+        for bb, si, pl, rv, sp in f.assigns():
+            if rv[0] == "bin" and (rv[1].startswith("Add") or rv[1].startswith("Sub")):
+                if op_local(rv[2]) in res_locals or op_local(rv[3]) in res_locals:
+                    r.violate("R9c|%s|converted line %s constant" % (f.id, "+" if rv[1].startswith("Add") else "-"),
+                              "%s shifts an already converted (0-based) line at %s: the position leaves the line of the token -- one "
+                              "past the last line of a document without a trailing newline is outside the document" % (f.id, crate.span_str(sp)))
+    r.floor("uses of the line converter", m, 5)
     return r
 
 
